@@ -86,7 +86,9 @@ func checkNegotiateMsg(who string, msg []byte, c negCase) []vf.Finding {
 	}
 	uni := n.Flags&nlmp.FlagUnicode != 0
 	oem := n.Flags&nlmp.FlagOEM != 0
-	if uni != c.Unicode || oem == c.Unicode {
+	// UNICODE is announced iff it was requested; without it OEM must be announced; OEM next to UNICODE is an
+	// offer of both (MS-NLMP 2.2.2.5: with A set the choice is Unicode), which Windows clients make
+	if uni != c.Unicode || (!c.Unicode && !oem) {
 		fs = append(fs, vf.F(who, "charset-flags-differ-from-request", "flags %#x for unicode=%v", n.Flags, c.Unicode))
 	}
 	// NEGOTIATE names are always OEM on the wire per MS-NLMP 2.2.1.1 ("DomainName ... in OEM character set");
@@ -103,9 +105,8 @@ func checkNegotiateMsg(who string, msg []byte, c negCase) []vf.Finding {
 	if n.Flags&nlmp.FlagVersion != 0 && len(msg) < 40 {
 		fs = append(fs, vf.F(who, "version-flag-without-version", "len %d", len(msg)))
 	}
-	if int(n.Domain.Len)+int(n.Workstation.Len)+40 != len(msg) {
-		fs = append(fs, vf.F(who, "bytes-not-designated-by-any-field", "message %d bytes, header 40 + payloads %d", len(msg), int(n.Domain.Len)+int(n.Workstation.Len)))
-	}
+	// bytes that no descriptor designates (alignment padding between payloads) are not judged: bounds, exactness
+	// of each descriptor and disjointness are ParseNegotiate's and the payload comparison's above
 	return fs
 }
 
@@ -226,10 +227,15 @@ func checkChallenge(c chalCase) []vf.Finding {
 	if !bytes.Equal(got.ServerChallenge[:], c.ServerChallenge) {
 		fs = append(fs, vf.F("ntlm.ParseChallengeMessage", "server-challenge-differs", "got %x want %x", got.ServerChallenge, []byte(c.ServerChallenge)))
 	}
-	if !bytes.Equal(got.TargetName, ch.TargetName) {
+	// MS-NLMP 2.2.1.2: without NTLMSSP_REQUEST_TARGET the TargetNameFields, and without
+	// NTLMSSP_NEGOTIATE_TARGET_INFO the TargetInfoFields, "MUST be ignored on receipt"; a parser may hand back
+	// what they point at or nothing. Such messages are still generated (they must parse), the two fields are
+	// judged only under their flag, as Version is.
+	judgeName, judgeInfo := c.Flags&nlmp.FlagReqTarget != 0, c.Flags&nlmp.FlagTargetInf != 0
+	if judgeName && !bytes.Equal(got.TargetName, ch.TargetName) {
 		fs = append(fs, vf.F("ntlm.ParseChallengeMessage", "target-name-differs", "got %x want %x (info first %v, gaps %d/%d)", got.TargetName, ch.TargetName, c.InfoFirst, len(c.Gap0), len(c.Gap1)))
 	}
-	if !bytes.Equal(got.TargetInfo, ch.TargetInfo) {
+	if judgeInfo && !bytes.Equal(got.TargetInfo, ch.TargetInfo) {
 		fs = append(fs, vf.F("ntlm.ParseChallengeMessage", "target-info-differs", "got %d bytes want %d (info first %v, gaps %d/%d)", len(got.TargetInfo), len(ch.TargetInfo), c.InfoFirst, len(c.Gap0), len(c.Gap1)))
 	}
 	if c.Flags&nlmp.FlagVersion != 0 {
@@ -239,7 +245,13 @@ func checkChallenge(c chalCase) []vf.Finding {
 		}
 	}
 	if c.HasInfo {
-		m, err := ntlm.ParseTargetInfo(got.TargetInfo)
+		// ParseTargetInfo is judged on every well-formed list: on the parsed message's where that is judged,
+		// on the list as sent otherwise
+		info := ch.TargetInfo
+		if judgeInfo {
+			info = got.TargetInfo
+		}
+		m, err := ntlm.ParseTargetInfo(append([]byte{}, info...))
 		if err != nil {
 			fs = append(fs, vf.F("ntlm.ParseTargetInfo", "well-formed-list-rejected", "%v", err))
 		} else {
@@ -324,6 +336,10 @@ func TestChallengeParse(t *testing.T) {
 	vf.Rapid(s, vf.N(8000, 150000), genChal, checkChallenge, chalNontrivial)
 }
 
+// noCharset: the CHALLENGE negotiates neither character set (only the raw flag words do that). A client may
+// refuse to answer it (MS-NLMP 3.1.5.1.2: SEC_E_INVALID_TOKEN); an answer it does build is judged like any other.
+func (c chalCase) noCharset() bool { return c.Flags&(nlmp.FlagUnicode|nlmp.FlagOEM) == 0 }
+
 func checkAuthenticate(c chalCase) []vf.Finding {
 	_, _, wire := c.wire()
 	parsed, err := ntlm.ParseChallengeMessage(wire)
@@ -332,6 +348,9 @@ func checkAuthenticate(c chalCase) []vf.Finding {
 	}
 	msg, err := ntlm.CreateAuthenticateMessage(parsed, c.User, c.Password, c.Domain, c.Workstation)
 	if err != nil {
+		if c.noCharset() {
+			return nil
+		}
 		return []vf.Finding{vf.F("ntlm.CreateAuthenticateMessage", "error", "%v", err)}
 	}
 	a, problems := nlmp.ParseAuthenticate(msg)
@@ -358,13 +377,7 @@ func checkAuthenticate(c chalCase) []vf.Finding {
 	if len(msg) < 88 {
 		fs = append(fs, vf.F("ntlm.CreateAuthenticateMessage", "header-shorter-than-88", "%d bytes", len(msg)))
 	}
-	total := 88
-	for _, f := range []nlmp.Field{a.LM, a.NT, a.Domain, a.User, a.Workstation, a.SessionKey} {
-		total += int(f.Len)
-	}
-	if total != len(msg) {
-		fs = append(fs, vf.F("ntlm.CreateAuthenticateMessage", "bytes-not-designated-by-any-field", "message %d bytes, header 88 + payloads = %d", len(msg), total))
-	}
+	// as for NEGOTIATE, padding bytes outside every descriptor are not judged
 	return fs
 }
 
@@ -519,7 +532,10 @@ type identity struct {
 // processOnce hands the CHALLENGE of c, wrapped in a NegTokenResp, to ctx and judges the AUTHENTICATE token
 // that comes back against that challenge and the identity the context was created with. pre is put in front
 // of the finding kinds.
-func processOnce(ctx *spnego.AuthContext, c chalCase, id identity, pre string) []vf.Finding {
+//
+// A context may refuse a CHALLENGE that negotiates no character set (see noCharset): that is no finding, and
+// *refused (if given) tells the caller that no AUTHENTICATE came back.
+func processOnce(ctx *spnego.AuthContext, c chalCase, id identity, pre string, refused *bool) []vf.Finding {
 	const who = "AuthContext.ProcessChallengeToken"
 	_, _, inner := c.wire()
 	wrapped, err := spnego.CreateNegTokenResp(spnego.AcceptIncomplete, spnego.NtlmOID, inner)
@@ -528,6 +544,12 @@ func processOnce(ctx *spnego.AuthContext, c chalCase, id identity, pre string) [
 	}
 	out, err := ctx.ProcessChallengeToken(wrapped)
 	if err != nil {
+		if c.noCharset() {
+			if refused != nil {
+				*refused = true
+			}
+			return nil
+		}
 		return []vf.Finding{vf.F(who, pre+"well-formed-challenge-token-rejected", "%v", err)}
 	}
 	var fs []vf.Finding
@@ -583,7 +605,7 @@ func (c chalCase) identity() identity { return identity{c.User, c.Password, c.Do
 
 func checkProcess(c chalCase) []vf.Finding {
 	ctx := spnego.NewAuthContext(spnego.AuthTypeNTLM, c.Domain, c.User, c.Password, c.Workstation, c.Flags&nlmp.FlagUnicode != 0)
-	return processOnce(ctx, c, c.identity(), "")
+	return processOnce(ctx, c, c.identity(), "", nil)
 }
 
 // One context, two challenges in a row (a server may answer a retried session setup with a fresh challenge):
@@ -595,10 +617,12 @@ type twiceCase struct {
 
 func checkProcessTwice(c twiceCase) []vf.Finding {
 	ctx := spnego.NewAuthContext(spnego.AuthTypeNTLM, c.First.Domain, c.First.User, c.First.Password, c.First.Workstation, c.First.Flags&nlmp.FlagUnicode != 0)
-	if fs := processOnce(ctx, c.First, c.First.identity(), ""); len(fs) > 0 {
+	var refused bool
+	if fs := processOnce(ctx, c.First, c.First.identity(), "", &refused); len(fs) > 0 || refused {
+		// a context that refused its first challenge has answered nothing: there is no "second" answer to judge
 		return fs
 	}
-	return processOnce(ctx, c.Second, c.First.identity(), "reused-context-")
+	return processOnce(ctx, c.Second, c.First.identity(), "reused-context-", nil)
 }
 
 func decodeUTF16(b []byte) string {
